@@ -19,7 +19,7 @@ CLAIMS = {
             "impl (forwarders incl. the type-erased bridge, Option, Empty, And, Or, Wrap, FromFilter, FirstDefined, "
             "Runtime, macro entry points) as exactly-once / truth-table / short-circuit rules; leaf emitters bypass "
             "filter, clock and ctxt. The conclusion for all combinator trees follows by structural induction (paper "
-            "step). Does not decide what user-supplied leaf filters/emitters do.",
+            "step). Does not decide what user-supplied leaf filters/emitters do. Round 2: the proc-macro side of the emit hooks is read off emit_macros' quote! templates (argument count and like-named variable/parameter agreement at the macro/runtime boundary). Thorough tier repeats the rules on the no_std and alloc-only builds.",
             "custom MIR dataflow/path rules (rustc_private fact extractor + provenance, path counting, truth tables)",
             "3/C01"),
     "C02": ("Decides on built MIR for every impl of Props in the workspace (24 for_each bodies, enumerated from the "
@@ -29,7 +29,7 @@ CLAIMS = {
             "the default get keeps the first match and stops; is_unique is true only for stores that cannot hold a "
             "key twice, forwarders forward, And/arrays/slices/Option inherit false; Dedup is first-wins with its fast "
             "path under is_unique(); erased bridge forwards once; views enumerate their own keys before inner props. "
-            "Lookup==first-enumerated then follows per impl; not decided: user Props impls, hash-map iteration order.",
+            "Lookup==first-enumerated then follows per impl; not decided: user Props impls, hash-map iteration order. Round 2: a lookup override the table does not know is decided as a keyed view (no key enumeration never yields, no key returned under weaker conditions than it is enumerated, every enumerated key answered); the macro-built collection's selector skips None entries like enumeration does.",
             "custom MIR dataflow rules (visitor/ControlFlow discipline, override coherence table, forwarding)",
             "3/C02"),
     "C05": ("Decides the typestate of SpanGuard{state,data,completion} on built MIR: Completion::complete is called "
@@ -40,7 +40,7 @@ CLAIMS = {
             "only on the filter's accept edge) and takes state/data; Timer reads the clock once at start and once at "
             "extent, range(start..now); the default completion's panic arm; level plumbing of the macro completion "
             "hooks; argument agreement (no swapped same-typed arguments) incl. the proc-macro crate. Thorough adds "
-            "the macro call-site corpus. Not decided: values of clock readings (backwards clocks).",
+            "the macro call-site corpus. Not decided: values of clock readings (backwards clocks). Round 2: ToExtent for Timer is Timer::extent(); the tokens the span macro passes as panic_lvl derive from the panic_lvl argument only (and lvl from the default level only), read off the quote! templates; generated hook calls agree with the hooks' parameter names; is_panicking() is std::thread::panicking() (constant false without std, thorough tier).",
             "custom MIR typestate/dataflow rules (guarded-call, field provenance of aggregate constructions, "
             "path-sensitive write-back) + argument-agreement lint",
             "3/C05"),
@@ -67,7 +67,7 @@ CLAIMS = {
             "stores the child; push_ctxt pushes ids only on the enabled edge and opens a disabled frame otherwise; "
             "the begin-span hook passes rt.ctxt()/clock()/rng(), completion hooks emit with the runtime's ctxt; the "
             "typed TraceId/SpanId fast path of the thread-local buffer; the RAII frame bracket incl. unwind (ids "
-            "revert when a span ends). Not decided: id distinctness (rng), schedules beyond the per-poll bracket.",
+            "revert when a span ends). Not decided: id distinctness (rng), schedules beyond the per-poll bracket. Round 2: every wrapper and the type-erased Ctxt bridge forward open_disabled/open_push/... to the same-named method; an id's text is read by the hex decoder only (no decimal text parse in front of it), TraceId/SpanId siblings agree; the generated __private_begin_span call passes like-named values at like-named parameters.",
             "custom MIR provenance rules (argument origins, constant keys vs field names, guarded calls, guard "
             "liveness incl. unwind)",
             "3/C04"),
@@ -90,7 +90,7 @@ CLAIMS = {
             "a retried remainder; only the receiver replaces the pending batch or its watchers; blocking/async flush "
             "wait on the notifier their callback triggers and return its result; end to end: the file worker returns Ok "
             "only after flush+sync_all, the OTLP transport only when no request is left, every OTLP signal sender is "
-            "flushed and a failed one fails the flush, wrappers forward. Not decided: timeouts, receiver scheduling.",
+            "flushed and a failed one fails the flush, wrappers forward. Not decided: timeouts, receiver scheduling. Round 2: flush/empty watchers are fired only by the receiver on the batch it took, never by a sender on the pending batch.",
             "custom MIR rules: path-condition truth tables, natural-loop membership and must-pass-through, provenance",
             "3/C07"),
     "C08": ("Decides on built MIR: the processor runs only inside catch_unwind and its future is polled only through "
@@ -100,7 +100,7 @@ CLAIMS = {
             "sender or receiver closes the channel under the lock; exec returns only on the empty arm with the channel "
             "closed, decided inside the one critical section; tokio blocking entry points never call block_on and call "
             "block_in_place only under a runtime-flavour check (fixed defect); send_or_wait waits the remaining time; "
-            "panic-site inventory of channel code outside catch_unwind. Not decided: bounded time, OS scheduling.",
+            "panic-site inventory of channel code outside catch_unwind. Not decided: bounded time, OS scheduling. Round 2: the wait callback handed to send_or_wait captures nothing derived from the caller's total timeout and waits for its own (remaining-time) parameter. Thorough tier repeats the channel rules on the build without tokio.",
             "custom MIR rules: containment (who-may-call), loop back-edge control dependence, guard liveness, effect names",
             "3/C08"),
     "C09": ("Decides on built MIR: send tests len >= max_capacity under the lock, clears on the full edge, counts the "
@@ -110,7 +110,7 @@ CLAIMS = {
             "returns the item on expiry; the file and OTLP emitters' emit() reach (call graph over workspace bodies) no "
             "filesystem/network/sleep/condvar/block_on/blocking-send effect and end in Sender::send; for every impl "
             "Channel, clear() resets each field push() updates or len() reads, and the OTLP channel's len is its event "
-            "count. Not decided: effects inside dependencies, wall-clock bounds.",
+            "count. Not decided: effects inside dependencies, wall-clock bounds. Round 2: same wait-closure rule as C08.",
             "custom MIR rules: comparison-operator and edge inspection, call-graph effect reachability, field read/write sets",
             "3/C09"),
     "C10": ("Decides the worker's structure on built MIR (not what the OS does): every Ok return is dominated by "
@@ -121,7 +121,7 @@ CLAIMS = {
             "bare Write::write; reuse opens in recovery mode, create clean; open_new = create_new+append, open_existing "
             "append-only, parent directory synced before a created file is used; emit() appends a missing separator; "
             "advance() steps by one and subtracts the taken length; events the cursor moved past are synced before any "
-            "return (one known finding). Not decided: byte identity, the in-memory fault model.",
+            "return (one known finding). Not decided: byte identity, the in-memory fault model. Round 2: the channel's retry budget is reset per batch and the retry loop re-submits the returned remainder (shared with C08/C06).",
             "custom MIR rules: dominance/must-pass-through with ?-success edges, field-write ordering, constant options",
             "3/C10"),
     "C12": ("Decides on built MIR (async bodies pre-lowering): in OtlpTransport::send each iteration peeks one request, "
@@ -131,7 +131,7 @@ CLAIMS = {
             "counts it once; one Receiver::exec with its own transport per signal; the cached connection is taken before "
             "and handed back only after a successful request, inside tokio::time::timeout; the accepted status sets "
             "computed from the comparison constants are exactly HTTP 200..=299 and grpc-status 0; a transport error is "
-            "retryable. Not decided: network/collector behaviour, back-off timing.",
+            "retryable. Not decided: network/collector behaviour, back-off timing. Round 2: every configured signal is flushed and a failed one fails the flush; the channel's retry budget resets per batch.",
             "custom MIR rules: await-source resolution, per-iteration removal counting, value-set evaluation of guards",
             "3/C12"),
     "C14": ("Decides on built MIR: on every path through OtlpInner::emit exactly one of {Sender::send on the metrics / "
@@ -143,7 +143,7 @@ CLAIMS = {
             "?-checked and whose stream impl makes text/bool/null errors; the logs encoder has no declining path; "
             "is_span_filter/is_metric_filter build KindFilter(Span/Metric), KindFilter::matches compares "
             "pull::<Kind>(\"evt_kind\") with its own kind; FromValue for Kind = downcast then Value::parse; the kind's "
-            "text constants agree between Display and FromStr. Not decided: which sval calls a runtime value produces.",
+            "text constants agree between Display and FromStr. Not decided: which sval calls a runtime value produces. Round 2: the metrics encoder declines only for a non-metric kind or a missing/unusable metric_value, never because another property (metric_agg) is absent.",
             "custom MIR rules: path enumeration with per-path counting and provenance, guard edges, error-discipline "
             "(ignored Result) check, sibling-impl agreement",
             "3/C14"),
@@ -156,7 +156,7 @@ CLAIMS = {
             "sort order of the listing, the end current_file_name() reads and the end retention removes are consistent; "
             "file_name() formats prefix, period, id, ext in that order and read_file_name_ts() reads part 1 of split('.'); "
             "new files are named from the period of this batch's clock reading; only entries matching prefix and extension "
-            "enter the listing. Not claimed: prefix-extending sibling sets, calendar arithmetic, zero-padded name ordering.",
+            "enter the listing. Not claimed: prefix-extending sibling sets, calendar arithmetic, zero-padded name ordering. Round 2: the set directory returned for a template is tested for emptiness and replaced (fixed defect: bare file names); retention is a loop that deletes while len >= bound, bound = max_files.saturating_sub(1); the name's counter is the whole time elapsed since the start of the current day/hour/minute (exact field sets per arm) of the batch's one clock reading, which also gives the period; an opened file's period is parsed from the name of the very path that was opened.",
             "custom MIR rules: truth table of a closure predicate, feasible-path must-pass-through, who-may-call, "
             "provenance of deleted paths, sibling agreement (sort/first/pop), format-argument order",
             "3/C11"),
@@ -170,7 +170,7 @@ CLAIMS = {
             "prost schema with that tag and lowerCamelCase JSON name, LABEL/INDEX stems agree (one fixed defect: "
             "asInt/asDouble); (R4) well-known keys are lifted to their fields and not re-emitted under their own key; (R5) "
             "the file writer's fields are begin/end balanced. Not decided: structure preservation, 128-bit/non-finite "
-            "rendering, JSON well-formedness (sval_json/sval_protobuf/value-bag), float-driven sparkline indices.",
+            "rendering, JSON well-formedness (sval_json/sval_protobuf/value-bag). Round 2: the terminal sparkline index is discharged by shape (normalise-then-scale with the division first, K = len-1) instead of an allow row; only identifier-literal labels may carry sval's no-escaping tag (computed property keys are escaped); argument agreement sees through trait-method calls (start/end time of metric points).",
             "call-graph reachability + panic-site inventory on MIR, guard liveness, provenance of for_each receivers, "
             "declarative-table cross-check (sval attributes vs prost-generated schema)",
             "3/C13"),
@@ -182,11 +182,11 @@ CLAIMS = {
             "indexing and sign-accepting integer parsers are forbidden in fixed-layout parsers (three fixed defects); (R2) "
             "the compiler-evaluated hex tables are mutual inverses, 0xff exactly for non-hex, nibble table exact, and the "
             "0xff sentinel is tested; Level Display texts are accepted prefixes; (R3) the automaton extracted from "
-            "is_valid_path by abstract interpretation over 4 character classes accepts every ident(::ident)* and nothing "
+            "is_valid_path by abstract interpretation over 5 character classes accepts every ident(::ident)* and nothing "
             "outside seg(::seg)* (fixed defect); (R4) traceparent offsets (55; 2,35,52; 0..2,3..35,36..52,53..55) and RFC 3339 "
             "separator offsets with ?-checked fields; FromValue casts are downcast-then-text-parse. NOT decided (and one "
             "seeded change in to_parts is missed for that reason): format/parse identity of timestamps, calendar "
-            "conversion, lexicographic order, acceptance of every well-formed level text.",
+            "conversion, lexicographic order, acceptance of every well-formed level text. Round 2: the path automaton has '_' as its own class and its lower bound is Rust identifiers (fixed defect: a::_1 rejected); hex ids are never decimal-parsed from text.",
             "panic-site inventory with interval-lite abstract interpretation on MIR, constant-table evaluation by the "
             "compiler, finite-automaton extraction by abstract interpretation, layout-constant agreement",
             "3/C15"),
@@ -200,7 +200,7 @@ CLAIMS = {
             "to_owned rebuild Text as Text and Hole as Hole with every field taken from the same field of the source (label, "
             "formatter); TemplateKind::parts covers every variant; Template::to_owned goes through Part::to_owned. Not decided: "
             "that eq is an equivalence insensitive to fragment splitting (a value-level defect for an empty fragment next to a "
-            "hole is known and out of reach).",
+            "hole is known and out of reach). Round 2: each cursor of eq indexes only the sequence whose length bounds it (contradiction rule); #[emit::fmt] flags reach the generated format string verbatim; generated __private_format/emit calls agree with the hooks' parameters.",
             "custom MIR rules: panic-site inventory with interval-lite discharges, guard-edge conditions, aggregate field "
             "provenance, forwarding",
             "3/C16"),
@@ -229,7 +229,7 @@ CLAIMS = {
             "to the inner ctxt; set_active_traceparent is mem::replace on the thread-local returning the previous value; frames "
             "carry slot/active/inner consistently; with_current synthesises SpanCtxt(trace_id, span_parent, span_id) only when "
             "sampled, else empty; ExcludeTraceparentProps drops the three id keys under `check`. 'Exactly once per trace' "
-            "across threads follows from these + C03 (paper step).",
+            "across threads follows from these + C03 (paper step). Round 2: is_sampled() masks with SAMPLED; frames are entered/exited only through the RAII guard (held across the body, dropped on unwind) so the previous traceparent is restored on every exit; a guard the filter rejected never runs a completion (shared with C03/C05).",
             "custom MIR rules: guard edges and closure return provenance, who-may-call with argument shape, field-write "
             "provenance, aggregate field origins",
             "3/C18"),
@@ -243,7 +243,7 @@ CLAIMS = {
             "matches/blocking_flush are constant true, now() is None; Setup::try_init_slot assembles the runtime from its own "
             "five fields, ?-checks init, and reads slot.get() for the Init handle only after (on the success edge of) init; "
             "init_slot = try_init_slot(..).expect(..); is_enabled = get().is_some(); the unsafe Send/Sync impls are conditional. "
-            "The behaviour under all interleavings then rests on the OnceLock contract (trusted).",
+            "The behaviour under all interleavings then rests on the OnceLock contract (trusted). Round 2: every runtime assembled in emit::setup (chain from Runtime::new() or Runtime::build) carries all five components from the like-named fields; the crate-level accessors and blocking_flush are straight-line reads of runtime::shared() (flush true before init). Thorough tier: the no_std slot is constant-empty and never enabled.",
             "custom MIR rules: API-usage whitelist on a type, error discipline, dominance on ?-success edges, aggregate "
             "provenance, ADT interior-mutability scan, impl predicates",
             "3/C20"),
@@ -256,7 +256,7 @@ CLAIMS = {
             "reaches no visitor call); Value and OwnedValue forward sval/serde/Debug/Display to the wrapped bag; buffering "
             "into the thread-local ambient context only downcasts (TraceId/SpanId) or to_shared()s and never calls a "
             "parse/format/cast function; owned/shared copies are the bag's. NOT decided (the larger part of the property): "
-            "what consumers observe through value-bag / sval / serde bridging.",
+            "what consumers observe through value-bag / sval / serde bridging. Round 2: the attribute -> hook table of the proc-macro crate selects, for each #[emit::as_*], the inspecting and anonymous capture hook of its own mode (read off quote! templates); lookup in macro-built props skips None entries.",
             "custom MIR rules: resolved-callee mode tables (writer/reader agreement across three layers), loop-edge "
             "reachability, forbidden-call whitelist",
             "3/C19"),
